@@ -1037,7 +1037,7 @@ func consensusFile(name string) bool {
 
 type rangeSite struct {
 	file, fn, hash, useHash, expr, kind string
-	writes, calls                       []string
+	writes, calls, uses                 []string
 	line                                int
 }
 
@@ -1128,7 +1128,7 @@ func scanDeterminism(l *factsLoader, dirs []string) (sites []rangeSite, cons []c
 							t := sc.typeOf(rs.X)
 							cls := l.classify(t)
 							if cls == "map" || cls == "unknown" {
-								sites = append(sites, makeSite(l, rel, fnName, fd, rs, cls))
+								sites = append(sites, makeSite(l, dirs, rel, fnName, fd, rs, cls))
 							}
 						}
 					}
@@ -1160,7 +1160,7 @@ func scanDeterminism(l *factsLoader, dirs []string) (sites []rangeSite, cons []c
 	return
 }
 
-func makeSite(l *factsLoader, rel, fnName string, fd *ast.FuncDecl, rs *ast.RangeStmt, cls string) rangeSite {
+func makeSite(l *factsLoader, dirs []string, rel, fnName string, fd *ast.FuncDecl, rs *ast.RangeStmt, cls string) rangeSite {
 	s := rangeSite{file: rel, fn: fnName, expr: normText(l.fset, rs.X), kind: cls, line: l.fset.Position(rs.Pos()).Line}
 	s.hash = shortHash(normText(l.fset, rs))
 	// variables declared inside the loop (including key/value)
@@ -1234,46 +1234,147 @@ func makeSite(l *factsLoader, rel, fnName string, fd *ast.FuncDecl, rs *ast.Rang
 	}
 	sort.Strings(s.writes)
 	sort.Strings(s.calls)
-	// every simple statement / header expression of the enclosing function outside the loop that mentions a written variable
+	// every simple statement / header expression of the enclosing function outside the loop that mentions a variable written by
+	// the loop or derived from one (taint through assignments and nested ranges); if such a value is returned, the same in every
+	// consensus function that calls the enclosing function.
 	var uses []string
 	if fd != nil && len(w) > 0 {
-		ast.Inspect(fd.Body, func(n ast.Node) bool {
-			if n == nil {
-				return true
+		tainted := map[string]bool{}
+		for k := range w {
+			tainted[k] = true
+		}
+		us, ret := taintUses(l, fd.Body, rs, tainted)
+		uses = append(uses, us...)
+		if ret {
+			for _, d := range dirs {
+				p := l.pkgs[d]
+				for _, fname := range p.names {
+					if !consensusFile(fname) {
+						continue
+					}
+					for _, decl := range p.files[fname].Decls {
+						g, ok := decl.(*ast.FuncDecl)
+						if !ok || g.Body == nil || g == fd {
+							continue
+						}
+						seeds := map[string]bool{}
+						ast.Inspect(g.Body, func(n ast.Node) bool {
+							as, ok := n.(*ast.AssignStmt)
+							if !ok {
+								return true
+							}
+							calls := false
+							for _, r := range as.Rhs {
+								ast.Inspect(r, func(x ast.Node) bool {
+									if c, ok := x.(*ast.CallExpr); ok {
+										switch f := c.Fun.(type) {
+										case *ast.Ident:
+											calls = calls || f.Name == fd.Name.Name
+										case *ast.SelectorExpr:
+											calls = calls || f.Sel.Name == fd.Name.Name
+										}
+									}
+									return true
+								})
+							}
+							if calls {
+								for _, lh := range as.Lhs {
+									if b := baseIdent(lh); b != "" && b != "_" && b != "err" && b != "ok" {
+										seeds[b] = true
+									}
+								}
+							}
+							return true
+						})
+						if len(seeds) == 0 {
+							continue
+						}
+						cu, _ := taintUses(l, g.Body, nil, seeds)
+						for _, u := range cu {
+							uses = append(uses, "caller "+d+"/"+fname+" "+funcKey(g)+": "+u)
+						}
+					}
+				}
 			}
-			if n == ast.Node(rs) {
+		}
+	}
+	s.uses = uses
+	s.useHash = shortHash(strings.Join(uses, "\n"))
+	return s
+}
+
+// taintUses: statements of body (outside skip) that mention a tainted variable; taint spreads through assignments and ranges.
+// Second result: a return statement mentions a tainted variable.
+func taintUses(l *factsLoader, body *ast.BlockStmt, skip *ast.RangeStmt, tainted map[string]bool) (uses []string, returns bool) {
+	for changed := true; changed; {
+		changed = false
+		ast.Inspect(body, func(n ast.Node) bool {
+			if skip != nil && n == ast.Node(skip) {
 				return false
 			}
-			var part ast.Node
 			switch x := n.(type) {
-			case *ast.AssignStmt, *ast.ExprStmt, *ast.ReturnStmt, *ast.IncDecStmt, *ast.DeclStmt, *ast.SendStmt, *ast.GoStmt, *ast.DeferStmt:
-				part = x
-				if mentions(part, w) {
-					uses = append(uses, normText(l.fset, part))
+			case *ast.AssignStmt:
+				hit := false
+				for _, r := range x.Rhs {
+					hit = hit || mentions(r, tainted)
 				}
-				return false
-			case *ast.IfStmt:
-				if x.Cond != nil && mentions(x.Cond, w) {
-					uses = append(uses, "if "+normText(l.fset, x.Cond))
-				}
-			case *ast.ForStmt:
-				if x.Cond != nil && mentions(x.Cond, w) {
-					uses = append(uses, "for "+normText(l.fset, x.Cond))
+				if hit {
+					for _, lh := range x.Lhs {
+						if b := baseIdent(lh); b != "" && b != "_" && b != "err" && b != "ok" && !tainted[b] {
+							tainted[b] = true
+							changed = true
+						}
+					}
 				}
 			case *ast.RangeStmt:
-				if mentions(x.X, w) {
-					uses = append(uses, "range "+normText(l.fset, x.X))
-				}
-			case *ast.SwitchStmt:
-				if x.Tag != nil && mentions(x.Tag, w) {
-					uses = append(uses, "switch "+normText(l.fset, x.Tag))
+				if mentions(x.X, tainted) {
+					for _, e := range []ast.Expr{x.Key, x.Value} {
+						if id, ok := e.(*ast.Ident); ok && id.Name != "_" && !tainted[id.Name] {
+							tainted[id.Name] = true
+							changed = true
+						}
+					}
 				}
 			}
 			return true
 		})
 	}
-	s.useHash = shortHash(strings.Join(uses, "\n"))
-	return s
+	ast.Inspect(body, func(n ast.Node) bool {
+		if n == nil {
+			return true
+		}
+		if skip != nil && n == ast.Node(skip) {
+			return false
+		}
+		switch x := n.(type) {
+		case *ast.AssignStmt, *ast.ExprStmt, *ast.ReturnStmt, *ast.IncDecStmt, *ast.DeclStmt, *ast.SendStmt, *ast.GoStmt, *ast.DeferStmt:
+			if mentions(x, tainted) {
+				uses = append(uses, normText(l.fset, x))
+				if _, ok := x.(*ast.ReturnStmt); ok {
+					returns = true
+				}
+			}
+			return false
+		case *ast.IfStmt:
+			if x.Cond != nil && mentions(x.Cond, tainted) {
+				uses = append(uses, "if "+normText(l.fset, x.Cond))
+			}
+		case *ast.ForStmt:
+			if x.Cond != nil && mentions(x.Cond, tainted) {
+				uses = append(uses, "for "+normText(l.fset, x.Cond))
+			}
+		case *ast.RangeStmt:
+			if mentions(x.X, tainted) {
+				uses = append(uses, "range "+normText(l.fset, x.X))
+			}
+		case *ast.SwitchStmt:
+			if x.Tag != nil && mentions(x.Tag, tainted) {
+				uses = append(uses, "switch "+normText(l.fset, x.Tag))
+			}
+		}
+		return true
+	})
+	return
 }
 
 // ---------------------------------------------------------------------------------------------- store prefixes and genesis coverage
@@ -1803,6 +1904,11 @@ func emitCoreFacts(repo, outDir string) int {
 		fmt.Fprintf(&b, "  { file := %s, fn := %s, hash := %s, useHash := %s, expr := %s, kind := %s,\n    writes := %s, calls := %s }%s\n",
 			leanStr(s.file), leanStr(s.fn), leanStr(s.hash), leanStr(s.useHash), leanStr(s.expr), leanStr(s.kind), leanStrList(s.writes), leanStrList(s.calls), sep)
 		fmt.Printf("fact map-range %s:%d %s %s kind=%s hash=%s use=%s\n", s.file, s.line, s.fn, s.expr, s.kind, s.hash, s.useHash)
+		if os.Getenv("SVX_VERBOSE") != "" {
+			for _, u := range s.uses {
+				fmt.Printf("    use: %s\n", u)
+			}
+		}
 	}
 	b.WriteString("]\n\n")
 	b.WriteString("/-- Uses of wall-clock time, randomness, goroutines, select, floats, unsafe, pointer formatting, sync in consensus packages. -/\n")
